@@ -23,6 +23,7 @@ type fmtCase struct {
 		Runs     bool     `json:"runs"`
 		Imported bool     `json:"imported"`
 		Tasks    []string `json:"tasks"`
+		Joined   []string `json:"joined"`
 	} `json:"built"`
 }
 
@@ -147,6 +148,12 @@ func buildAbstract(c fmtCase, trace string) (main M, imported M) {
 	}
 	if c.val("import") != "none" {
 		imported = M{"tasks": M{"imported": M{"command": L{"/bin/echo imported >> " + trace}, "env": M{"IE": "1"}}}}
+		// a pipeline and a task's variations declared in BOTH files: the lists are joined, whatever the
+		// formats of the two files
+		doc["pipelines"].(M)["q"] = L{M{"task": "dep", "name": "q1"}}
+		imported["pipelines"] = M{"q": L{M{"task": "imported", "name": "q2", "depends_on": L{"q1"}}}}
+		doc["tasks"].(M)["both"] = M{"command": L{"/bin/echo both-$VQ >> " + trace}, "variations": L{M{"VQ": "a"}}}
+		imported["tasks"].(M)["both"] = M{"variations": L{M{"VQ": "b"}}}
 	}
 	return doc, imported
 }
@@ -194,6 +201,10 @@ func CheckC16(env *core.Env, rep *core.Report) *core.Result {
 	cmds := [][]string{{"list"}, {"show", "main"}, {"show", "dep"}, {"graph", "p"}, {"--raw", "main"}, {"--raw", "p"}, {"--raw", "dep", "main"}}
 	core.Parallel(len(sel), 12, func(i int) {
 		c := sel[i]
+		cmds := cmds
+		if c.val("import") != "none" {
+			cmds = append(append([][]string{}, cmds...), []string{"graph", "q"}, []string{"--raw", "q"}, []string{"--raw", "both"})
+		}
 		type out struct {
 			stdout string
 			exit   int
@@ -289,6 +300,20 @@ func CheckC16(env *core.Env, rep *core.Report) *core.Result {
 			ran := strings.Contains(m.trace, "main-c1")
 			if m.exit == 0 && ran != c.Built.Runs {
 				add("built-differs-from-model:"+f, fmt.Sprintf("running main from the %s file executed its commands=%v, model %v", f, ran, c.Built.Runs), map[string]interface{}{"trace": m.trace})
+			}
+			// the lists declared in both files are joined: both stages of q run (in dependency order), both
+			// variations of `both`
+			if len(c.Built.Joined) > 0 {
+				q, bt := results[f]["--raw q"], results[f]["--raw both"]
+				if q.exit == 0 && strings.Join(lines(q.trace), ",") != "dep,imported" {
+					add("built-differs-from-model:"+f, fmt.Sprintf("pipeline q (one stage in the importing, one in the imported file) executed %q from the %s file, model: dep then imported", q.trace, f), map[string]interface{}{"trace": q.trace})
+				}
+				if bt.exit == 0 && strings.Join(lines(bt.trace), ",") != "both-a,both-b" {
+					add("built-differs-from-model:"+f, fmt.Sprintf("task both (one variation in each file) executed %q from the %s file, model: both-a, both-b", bt.trace, f), map[string]interface{}{"trace": bt.trace})
+				}
+				if q.exit != 0 || bt.exit != 0 {
+					add("valid-configuration-rejected:"+f, fmt.Sprintf("running q / both from the %s file: exit %d / %d", f, q.exit, bt.exit), map[string]interface{}{})
+				}
 			}
 			if lst.exit != 0 {
 				add("valid-configuration-rejected:"+f, fmt.Sprintf("the %s file was rejected: %s", f, ""), map[string]interface{}{})
